@@ -1,6 +1,7 @@
 package props
 
 import (
+	"go/token"
 	"golibcheck/internal/paths"
 	"go/constant"
 	"fmt"
@@ -347,38 +348,69 @@ func c05Frame(p *core.Program, r *core.Report, rule string, optsOnly bool) {
 				params = append(params, n.Name)
 			}
 		}
-		// statements after buffer.Reset(): prims on the stream in order
-		var seq []string
-		afterReset := false
-		copied := false
-		for _, s := range wh.Decl.Body.List {
-			if es, ok := s.(*ast.ExprStmt); ok {
-				if call, ok := es.X.(*ast.CallExpr); ok {
-					if sel, ok := call.Fun.(*ast.SelectorExpr); ok {
-						if sel.Sel.Name == "Reset" {
-							afterReset = true
-							continue
-						}
-						if id, ok := call.Fun.(*ast.Ident); ok && id.Name == "copy" {
-							_ = id
-						}
-						if afterReset && strings.HasPrefix(sel.Sel.Name, "Write") && len(call.Args) == 1 {
-							seq = append(seq, strings.TrimPrefix(sel.Sel.Name, "Write")+"("+types.ExprString(call.Args[0])+")")
-						}
-					} else if id, ok := call.Fun.(*ast.Ident); ok && id.Name == "copy" && !afterReset {
-						copied = true
-					}
-				}
-			}
-		}
-		_ = info
+		// the stream operations of WriteHeader in order (helpers on the same stream are followed):
+		// Byte(source) Byte(version) Long(pcode) Long(license hash) IntBytes(<copy of what was written before>)
+		hp, herr := evalClasses(p, wh, ivl{0, 0}, func(*classEval, *ceState, ast.Expr) bool { return false }, nil, isWritePrim)
 		want := ""
 		if len(params) == 4 {
-			want = fmt.Sprintf("Byte(%s) Byte(%s) Long(%s) Long(%s) IntBytes(t)", params[0], params[1], params[2], params[3])
+			want = fmt.Sprintf("WriteByte(%s) WriteByte(%s) WriteLong(%s) WriteLong(%s) WriteIntBytes", params[0], params[1], params[2], params[3])
 		}
-		got := strings.Join(seq, " ")
-		r.Check(copied && got == want && want != "", rule, "io.(*DataOutputX).WriteHeader layout", p.Pos(wh.Decl.Pos()),
-			"copies the body, resets, then "+want, fmt.Sprintf("header is emitted as %q (body copied before reset: %v); want %q", got, copied, want))
+		got := ""
+		lastArg := ""
+		if herr == "" && len(hp) == 1 {
+			var seq []string
+			for i, em := range hp[0].Emits {
+				if i == len(hp[0].Emits)-1 && em.Method == "WriteIntBytes" {
+					seq = append(seq, "WriteIntBytes")
+					if len(em.Args) == 1 {
+						lastArg = em.Args[0]
+					}
+				} else {
+					seq = append(seq, em.Method+"("+strings.Join(em.Args, ",")+")")
+				}
+			}
+			got = strings.Join(seq, " ")
+		} else {
+			got = "not a single straight-line sequence: " + herr
+		}
+		// the body: copied out of the buffer before the buffer is reset (in WriteHeader or the helper it uses)
+		copied := false
+		for _, fi := range p.MethodsOf(namedIn(p, "io", "DataOutputX")) {
+			if fi.Decl.Body == nil {
+				continue
+			}
+			var resetPos, copyPos token.Pos
+			ast.Inspect(fi.Decl.Body, func(n ast.Node) bool {
+				call, ok := n.(*ast.CallExpr)
+				if !ok {
+					return true
+				}
+				if sel, ok := call.Fun.(*ast.SelectorExpr); ok && sel.Sel.Name == "Reset" && resetPos == 0 {
+					resetPos = call.Pos()
+				}
+				if id, ok := call.Fun.(*ast.Ident); ok && id.Name == "copy" && len(call.Args) == 2 && copyPos == 0 {
+					copyPos = call.Pos()
+				}
+				return true
+			})
+			reaches := fi == wh
+			if !reaches {
+				ast.Inspect(wh.Decl.Body, func(n ast.Node) bool {
+					if call, ok := n.(*ast.CallExpr); ok {
+						if sel, ok := call.Fun.(*ast.SelectorExpr); ok && info.Uses[sel.Sel] == fi.Obj {
+							reaches = true
+						}
+					}
+					return true
+				})
+			}
+			if reaches && resetPos != 0 && copyPos != 0 && copyPos < resetPos {
+				copied = true
+			}
+		}
+		fresh := strings.HasPrefix(lastArg, "make(") || lastArg == "t"
+		r.Check(copied && fresh && got == want && want != "", rule, "io.(*DataOutputX).WriteHeader layout", p.Pos(wh.Decl.Pos()),
+			"copies the body, resets, then "+want+"(copy)", fmt.Sprintf("header is emitted as %q (body copied before reset: %v, length-prefixed copy appended: %v); want %q", got, copied, fresh, want))
 	}
 	md := p.Method("net/oneway", "OneWayTcpClient", "makeData")
 	if md == nil {
